@@ -973,6 +973,10 @@ def _dtype_name(dt):
     n = getattr(dt, "__name__", None)
     if n in DTYPES:
         return n
+    if n == "_IntType":          # the loader's stand-in for the builtin int / float inside loaded modules
+        return "int64"
+    if n == "_FloatType":
+        return "float64"
     return str(dt)
 
 
